@@ -21,34 +21,27 @@ import subprocess
 import sys
 import tempfile
 
+sys.path.insert(0, os.path.dirname(os.path.dirname(os.path.abspath(__file__))))
+
 HERE = os.path.dirname(os.path.dirname(os.path.abspath(__file__)))
 
 
 def run(pid, d):
+    from sa import seedlib
     name = os.path.basename(d.rstrip('/')) if d else 'CLEAN'
-    sc = tempfile.mkdtemp(prefix='pr-', dir='/tmp')
-    try:
-        subprocess.run(['rsync', '-a', '--exclude=test', '--exclude=data', '--exclude=__pycache__',
-                        '--include=*/', '--include=*.py', '--include=*.pyx', '--exclude=*',
-                        '/repo/enspara', sc + '/'], check=True)
-        if d:
-            r = subprocess.run(['patch', '-p1', '-s', '-i', os.path.abspath(os.path.join(d, 'patch.diff'))], cwd=sc, capture_output=True, text=True)
-            if r.returncode != 0:
-                return name, 'patch-failed', []
-        env = dict(os.environ, ENSPARA_REPO=sc, VERIF_EVIDENCE_DIR=os.path.join(sc, 'evidence'))
-        p = subprocess.run([os.path.join(HERE, 'check'), pid], cwd=HERE, env=env, capture_output=True, text=True)
-        rules = []
-        for line in p.stdout.splitlines():
-            m = re.match(r'\s+(\S+) rule=(\S+) function=(.*)', line)
-            if m and m.group(2) not in rules:
-                rules.append(m.group(2))
-            m = re.match(r'ANALYSIS-(INCOMPLETE|ERROR).*', line)
-            if m:
-                rules.append(line.strip()[:160])
-        verdict = {0: 'holds', 1: 'VIOLATION', 2: 'incomplete'}.get(p.returncode, 'rc=%d' % p.returncode)
-        return name, verdict, rules
-    finally:
-        shutil.rmtree(sc, ignore_errors=True)
+    if not d:
+        sc = tempfile.mkdtemp(prefix='pr-', dir='/tmp')
+        try:
+            seedlib._rsync_current(sc)
+            keys, inc = seedlib.run_checks(sc, [pid])[pid]
+            verdict = 'VIOLATION' if keys else ('incomplete' if inc else 'holds')
+            return name, verdict, sorted({k.split('|')[0] for k in keys})
+        finally:
+            shutil.rmtree(sc, ignore_errors=True)
+    r = seedlib.evaluate(d, [pid])
+    if 'error' in r:
+        return name, 'patch-failed', [r['error']]
+    return name, r[pid]['verdict'], r[pid]['rules'] + ([] if r[pid]['base'] == 'current' else ['[on base %s]' % r[pid]['base']])
 
 
 def main():
